@@ -2,6 +2,7 @@
 import io
 import os
 import threading
+import time
 from concurrent.futures import ThreadPoolExecutor
 
 from s3transfer.subscribers import BaseSubscriber
@@ -489,6 +490,33 @@ class RecordingSubscriber(BaseSubscriber):
                     future.result()
                 except Exception:
                     pass
+            elif act == 'result_other_thread':
+                # another thread asks for the result while this callback runs and the callback waits for it (a hand-over to a
+                # worker): the answer must come without waiting for the callback to return.  No wall-clock verdict: the helper either
+                # finishes, or the process comes to rest with the helper still inside result().
+                from . import watchdog
+
+                fin = threading.Event()
+
+                def ask():
+                    try:
+                        future.result()
+                    except BaseException:  # noqa
+                        pass
+                    fin.set()
+
+                threading.Thread(target=ask, name=f'vf-result-probe-{self.label}', daemon=True).start()
+                blocked = False
+                with watchdog.paused(), watchdog.polling():
+                    end = time.monotonic() + 5.0
+                    rest = 0
+                    while not fin.is_set() and time.monotonic() < end:
+                        time.sleep(0.001)  # (sleeping releases the GIL: a helper that can run does run)
+                        rest = rest + 1 if watchdog.quiescent(gap=0.002) else 0
+                        if rest >= 3 and not fin.is_set():
+                            blocked = True
+                            break
+                self.w.log.add('cb.result_probe', label=self.label, sub=self.name, where=where, blocked=blocked, answered=fin.is_set())
             self.w.log.add('cb.reenter.ret', label=self.label, sub=self.name, where=where, act=act)
 
     def on_queued(self, future, **kwargs):
@@ -612,7 +640,12 @@ class StageExecutor(ThreadPoolExecutor):
                 if c > self.max_by_type.get(tname, 0):
                     self.max_by_type[tname] = c
             tid = getattr(getattr(fn, '_transfer_coordinator', None), 'transfer_id', None)
-            self.w.log.add('exec.submit', stage_of=self.stage, seq=seq, outstanding=self.outstanding, task=type(fn).__name__, tid=tid)
+            nbytes = None
+            if self.stage == 'io':
+                data = (getattr(fn, '_main_kwargs', None) or {}).get('data')
+                if isinstance(data, (bytes, bytearray, memoryview)):
+                    nbytes = len(data)
+            self.w.log.add('exec.submit', stage_of=self.stage, seq=seq, outstanding=self.outstanding, task=type(fn).__name__, tid=tid, nbytes=nbytes)
 
             def run(*a, **k):
                 self.w.log.add('exec.start', stage_of=self.stage, seq=seq, task=type(fn).__name__, tid=tid)
